@@ -1,0 +1,8 @@
+//go:build !verif
+
+// Package verifhook provides named yield points used by the verification harnesses.
+// Without the "verif" build tag they do nothing.
+package verifhook
+
+// Yield does nothing unless built with the "verif" tag.
+func Yield(point string) {}
